@@ -51,6 +51,9 @@ type shadow struct {
 	msgLen int
 	auth   int
 	how    string
+	// unspecified: a refused reply left this frame in a state the statement says nothing
+	// about; its own content is no longer compared, it is only kept to be released later.
+	unspecified bool
 }
 
 var tiers = []int{600, 1600, 5100, 9600, 65675}
@@ -122,6 +125,7 @@ func run(e *core.Env) {
 	links := []*fakeLink{{1}, {2}, {3}}
 
 	var live []*shadow
+	var limbo []*shadow // frames whose reply was refused: kept aside, released later
 	nextID := 0
 	var hist []string
 	fail := func(class, format string, args ...any) {
@@ -163,6 +167,9 @@ func run(e *core.Env) {
 	}
 	verifyAll := func(after string) {
 		for _, s := range live {
+			if s.unspecified {
+				continue
+			}
 			verifyOne(s, after)
 		}
 	}
@@ -481,6 +488,44 @@ func run(e *core.Env) {
 			verifyAll(how)
 
 		case 8: // a build that must fail (message, switch block or appendix beyond the format's limits)
+			if len(live) > 0 && tp.Chance(1, 3) {
+				// ... on a frame that already owns a buffer: a reply that cannot be built (a peer's
+				// oversized field echoed in an error reply). The frame is kept and released later
+				// like any other; no other frame may notice any of this.
+				o := live[tp.Intn(len(live))]
+				if o.unspecified {
+					continue
+				}
+				big := make([]byte, []int{10001, 65536, 70000, 200000}[tp.Intn(4)])
+				how := fmt.Sprintf("failedReply(#%d %d bytes)", o.id, len(big))
+				hist = append(hist, how)
+				var err error
+				if e.Guard("panic", func() {
+					if tp.Chance(1, 2) {
+						err = o.f.Reply(nil, []byte("x"), big)
+					} else {
+						err = o.f.Reply(nil, big, nil)
+					}
+				}) {
+					e.Fail("", "")
+				}
+				if err == nil {
+					fail("oversized-reply-accepted", "%s succeeded", how)
+				}
+				o.unspecified = true
+				// out of the way of every other operation until it is released
+				for i, x := range live {
+					if x == o {
+						live = append(live[:i], live[i+1:]...)
+						break
+					}
+				}
+				limbo = append(limbo, o)
+				e.Fault("failed_build")
+				e.Probe("refused_reply_on_a_live_frame")
+				verifyAll(how)
+				continue
+			}
 			sbD, msgD, apxD := tp.Bytes(tp.Intn(40)), tp.Bytes(1+tp.Intn(300)), tp.Bytes(tp.Intn(40))
 			switch tp.Intn(5) {
 			case 4: // beyond the largest pooled buffer (a peer's oversized field echoed in an error reply)
@@ -516,6 +561,18 @@ func run(e *core.Env) {
 			verifyAll(how)
 
 		case 6: // release
+			if len(limbo) > 0 && tp.Chance(1, 2) {
+				o := limbo[0]
+				limbo = limbo[1:]
+				how := fmt.Sprintf("release(#%d, after its refused reply)", o.id)
+				hist = append(hist, how)
+				if e.Guard("panic", func() { o.f.ReturnToPool() }) {
+					e.Fail("", "")
+				}
+				e.Fault("release")
+				verifyAll(how)
+				continue
+			}
 			i := tp.Intn(len(live))
 			o := live[i]
 			how := fmt.Sprintf("release(#%d)", o.id)
